@@ -57,7 +57,7 @@ def configs(tier, seed):
             out.append(dict(part='n_frac', signed=signed, f0=f0, kbits=8, carrier='fxp', cells=1, Fg=rng.choice((0, 2))))
     for f0 in ((0, 1, 2) if quick else (0, 1, 2, 3, 8, 20)):
         for signed in (None, False):
-            out.append(dict(part='none', signed=signed, f0=f0, kbits=8 if quick else 10, carrier='float', cells=2))
+            out.append(dict(part='none', signed=signed, f0=f0, kbits=8 if quick else (10 if f0 <= 3 else (9 if f0 == 8 else 6)), carrier='float', cells=2))
     for signed in (True, False, None):
         for (ni, other, val) in (('n_word', 12, 3), ('n_frac', 5, 3), ('n_word', 8, 0), ('n_frac', 0, 7)):
             out.append(dict(part='n_int', signed=signed, f0=2, kbits=6, carrier='float', cells=1, n_int=val, other=ni, other_val=other))
